@@ -52,6 +52,17 @@ for _f, _g in zip(RULES, (T.rule_hooks, T.rule_handlers, T.rule_optable, T.rule_
                           T.rule_conn, T.rule_sigexpr, T.rule_for, T.rule_modname, T.rule_constcache, T.rule_layout)):
     _f.__name__ = _g.__name__
 
+
+def rule_typecheck_bounds(repo):
+    """the emitter trusts the type checker: a constant index / part-select that reaches it is in range and node.Type is the width
+    the simulation uses (a negative constant index would be emitted as a wrapped unsigned index).  Shared with C10
+    (R-C10-widthtable: index / slice bound checks and result widths)."""
+    from rules.c10 import rule_widthtable
+    return rule_widthtable(repo)
+
+
+RULES.append(rule_typecheck_bounds)
+
 # ---------------------------------------------------------------------------
 # self-test of the checker
 GEN1, GEN2 = T.GEN[1], T.GEN[2]
@@ -123,6 +134,12 @@ MUTANTS = [
        "if isinstance( node.op, (ast.LShift, ast.RShift, ast.MatMult) ):", 'R-tr-assign'),
     _m('assign-sides-swapped', VB1, "tplt = '{target} {assignment_op} {value};'", "tplt = '{value} {assignment_op} {target};'",
        'R-tr-assign'),
+    _m('chained-tmpvar-assignment-nonblocking', GEN2, "    if has_tmpvar:\n      return True\n    else:\n      return super().get_blocking(node, bir_node)",
+       "    if has_tmpvar and len(bir_node.targets) == 1:\n      return True\n    else:\n      return super().get_blocking(node, bir_node)", 'R-tr-assign'),
+    _m('mixed-target-chain-accepted', GEN2, "    if has_tmpvar and not all_tmpvar:", "    if False and has_tmpvar and not all_tmpvar:", 'R-tr-assign'),
+    _m('single-tmpvar-follows-block-kind', GEN2, "      if isinstance(bir_node.targets[0], bir.TmpVar):\n        return True\n", "", 'R-tr-assign'),
+    _m('signal-chain-always-blocking', GEN2, "    if has_tmpvar:\n      return True\n    else:\n      return super().get_blocking(node, bir_node)",
+       "    return True", 'R-tr-assign'),
     # R-tr-slice
     _m('slice-upper-inclusive', VB1, "upper = str( int( node.upper._value - 1 ) )", "upper = str( int( node.upper._value ) )",
        'R-tr-slice'),
@@ -188,6 +205,12 @@ MUTANTS = [
        'R-tr-modname'),
     _m('module-name-from-array-type', VS4, "        _c_name = s.rtlir_tr_component_unique_name(obj_c_rtype)",
        "        _c_name = s.rtlir_tr_component_unique_name(c_rtype)", 'R-tr-modname'),
+    _m('module-name-fast-path-same-class', VS4, "        obj_c_rtype = s.tr_top.get_metadata(RTLIRPass.rtlir_getter).get_rtlir(obj)\n",
+       "        if type(obj) is type(c_rtype.obj):\n          obj_c_rtype = c_rtype\n        else:\n          obj_c_rtype = s.tr_top.get_metadata(RTLIRPass.rtlir_getter).get_rtlir(obj)\n",
+       'R-tr-modname'),
+    _m('module-name-fast-path-same-class-name', VS4, "        obj_c_rtype = s.tr_top.get_metadata(RTLIRPass.rtlir_getter).get_rtlir(obj)\n",
+       "        obj_c_rtype = c_rtype if obj.__class__.__name__ == c_rtype.get_name() else s.tr_top.get_metadata(RTLIRPass.rtlir_getter).get_rtlir(obj)\n",
+       'R-tr-modname'),
     _m('subcomp-explicit-name-ignored', VS4, "        elif subcomp_explicit_name:\n", "        elif False and subcomp_explicit_name:\n", 'R-tr-modname'),
     _m('defaults-wrong-offset', T.RTYPE, "defaults[idx-len(arg_names)]", "defaults[idx-num_defaults]", 'R-tr-modname'),
     _m('defaults-offset-by-supplied', T.RTYPE, "defaults[idx-len(arg_names)]", "defaults[idx-num_supplied]", 'R-tr-modname'),
@@ -210,6 +233,10 @@ MUTANTS = [
 ]
 
 EQUIV = [
+    _m('tmpvar-chain-test-restated', GEN2, "    if has_tmpvar:\n      return True\n    else:\n      return super().get_blocking(node, bir_node)",
+       "    if all_tmpvar and has_tmpvar:\n      return True\n    return super().get_blocking(node, bir_node)"),
+    _m('module-name-fast-path-same-object', VS4, "        obj_c_rtype = s.tr_top.get_metadata(RTLIRPass.rtlir_getter).get_rtlir(obj)\n",
+       "        obj_c_rtype = c_rtype if obj is c_rtype.obj else s.tr_top.get_metadata(RTLIRPass.rtlir_getter).get_rtlir(obj)\n"),
     # loop / comprehension / map spellings of `one value per item, in order`
     _m('connections-as-comprehension', T.G_S1,
        "    connections = []\n    _connections = m.get_metadata( StructuralRTLIRGenL1Pass.connections )\n    for writer, reader in _connections:\n"
